@@ -45,7 +45,7 @@ PROPS = {
  "C01": dict(
     level_text="Lean 4 proof for every execution (any thread count, schedule, length, buffer size) of the ring models that the Uni channels are built on: delivered sequence numbers are exactly 0..head-1 without repetition, each delivered value is the accepted one, nothing accepted is lost, a rejected send never wrote. Model tied to the code by step-level replay of thousands of scheduled runs; an implementation-side exactly-once oracle produces concrete replays.",
     level_note=LN_RING,
-    lean=["C01", "C01_LockRing"],
+    lean=["C01", "C01_LockRing", "C13_ZeroCopy"],
     scenarios=[ring("atomic", "mixed", 1600), ring("fullsync", "mixed", 1600)] +
               [dict(bin="uni", args=[f"kind={k}", "sub=flow"], runs=300, model_name="M8 Wake", kinds=["invented", "duplicate", "rejected_delivered", "lost", "panic"]) for k in UNI_KINDS],
     rule=RING_RULE,
@@ -65,7 +65,7 @@ PROPS = {
  "C16": dict(
     level_text="Lean 4 proof that the reject path of a send writes nothing (frame theorem), that quiescent states have no capacity in flight, that a solo send is rejected within 3 own steps exactly when N are pending and accepted otherwise, and that from every quiescent empty reachable state exactly N sends are accepted - for every reachable state, hence after any number of fill/drain cycles; tied to the code by step-level replay; refill oracle on the implementation.",
     level_note=LN_RING,
-    lean=["C16", "C16_LockRing"],
+    lean=["C16", "C16_LockRing", "C13_ZeroCopy"],
     scenarios=[ring("atomic", "mixed", 1600), ring("fullsync", "mixed", 1600)] +
               [dict(bin="uni", args=[f"kind={k}", "sub=flow"], runs=300, model_name="M8 Wake", kinds=["rejected_delivered", "invented", "duplicate", "lost", "panic"]) for k in UNI_KINDS],
     rule=RING_RULE,
@@ -73,10 +73,11 @@ PROPS = {
     assumptions=[],
  ),
  "C13": dict(
-    level_text="Lean 4 proof, for every execution of the pool model (any thread count / schedule / history, including shared and unique handles on top): free list, owned slots and unique allocations always form a permutation of 0..N-1 (so no slot has two owners, at most N are outstanding, exhaustion is answered exactly when the free list is empty, dealloc always finds room), FIFO reuse, id<->reference bijection; the free list itself is ring model M1/M2 (C02 witnesses for `empty`). Tied to the code by step-level replay; oracle: ids handed out are distinct, capacity restored.",
+    level_text="Lean 4 proof (a) for the COMPOSED container at the granularity of every shared access of both rings (model M4 ZeroCopy = pool + free-list ring + ring of ids, each an instance of ring model M1): in every reachable state both rings satisfy the ring invariant, the ids in the free list and in the queue are pairwise distinct and < N, a slot held by a thread is in neither ring and held by nobody else (at most one owner), both rings always have room (pigeonhole over the conserved slots: publish never answers full, dealloc never finds the free list full), an allocation never returns a held slot, enqueue answers full only when the free list answered empty; (b) for every execution of the pool model (any thread count / schedule / history, including shared and unique handles on top): free list, owned slots and unique allocations always form a permutation of 0..N-1 (so no slot has two owners, at most N are outstanding, exhaustion is answered exactly when the free list is empty, dealloc always finds room), FIFO reuse, id<->reference bijection; the free list itself is ring model M1/M2 (C02 witnesses for `empty`). Tied to the code by step-level replay; oracle: ids handed out are distinct, capacity restored.",
     level_note=LN_HANDLES,
-    lean=["C13"],
-    scenarios=[handles("atomic", 1200), handles("fullsync", 1200), ring("atomic", "mixed", 800), ring("fullsync", "mixed", 800)],
+    lean=["C13", "C13_ZeroCopy"],
+    scenarios=[handles("atomic", 1200), handles("fullsync", 1200), ring("atomic", "mixed", 800), ring("fullsync", "mixed", 800),
+               dict(bin="misc", args=["sub=aqueue"], runs=600, model_name="M4 ZeroCopy (pool + free-list ring + ring of ids)", kinds=["duplicate", "lost", "fifo", "invented", "capacity_not_restored", "full_while_room", "empty_while_pending", "panic", "no_progress"])],
     rule=HANDLES_RULE,
     trusted_base=TB_COMMON,
     assumptions=["only owned ids are deallocated (the callers in this crate are OgreArc/OgreUnique/zero-copy containers, modelled)"],
@@ -104,9 +105,9 @@ PROPS = {
  "C18": dict(
     level_text="Lean 4 proof for every execution of the stack model (both stacks): mutual exclusion of the critical region, the linearized history replayed on an abstract bounded stack is legal and yields the current content (LIFO), full/empty answers are exact at the linearization instant inside the call, multiset conservation; the two non-blocking queues are the zero-copy containers over ring models M1/M2 whose bounded-FIFO refinement is C02 (restated in C18_Queue for the atomic queue, C02_LockRing for the full-sync one). Tied to the code: step-level replay (atomic-flag stack at every flag access; parking-lot stack at operation granularity, its mutex is trusted), result-level Wing-Gong linearizability search on the stacks and real-time FIFO / empty / full oracles on the queues under the scheduler; free-running multi-core conservation runs.",
     level_note="Theorems about models M12b (stacks) and M1/M2 (rings under the queues); parking_lot::RawMutex trusted to be a mutex; queue `full` is judged with slots held by operations in progress counted as taken (an allocate-then-publish design cannot refine a strictly atomic capacity-N queue); sequential consistency (the Relaxed unlock stores of the atomic stack are outside the model).",
-    lean=["C18", "C02_LockRing"],
+    lean=["C18", "C02_LockRing", "C18_Queue", "C13_ZeroCopy"],
     scenarios=[dict(bin="misc", args=["sub=stack"], runs=1200, model_name="M12b Stack"), dict(bin="misc", args=["sub=plstack"], runs=800, model_name="M12b Stack"),
-               dict(bin="misc", args=["sub=aqueue"], runs=800, model=False, model_name="(oracle only)"), dict(bin="misc", args=["sub=fqueue"], runs=800, model=False, model_name="(oracle only)"),
+               dict(bin="misc", args=["sub=aqueue"], runs=800, model_name="M4 ZeroCopy (pool + free-list ring + ring of ids)"), dict(bin="misc", args=["sub=fqueue"], runs=800, model=False, model_name="(oracle only)"),
                dict(bin="misc", args=["sub=freerun"], runs=2, model=False, single=True, thorough_scale=30, model_name="(free running)")],
     rule="2-4 threads with random push/pop (enqueue/dequeue) scripts on capacity 2/4/8; scheduler picks at every hook; DISTINCT by trace hash; NON-TRIVIAL if a full/empty answer occurs or a thread spins on the flag",
     trusted_base=TB_COMMON + ["parking_lot::RawMutex is a mutex"],
